@@ -81,14 +81,15 @@ def main():
     if a.tier == 'thorough':
         coqchk(res, ['Props.C07'])
     cutoff = min(consts.get('LEVENSHTEIN_CUTOFF', 8), 64)
-    n, maxlen = (2500, 90) if a.tier == 'quick' else (20000, 260)
+    n, maxlen = (2500, 90) if a.tier == 'quick' else (12000, 200)
     cases, dist = gen_cases(a.seed, n, maxlen, cutoff)
-    if a.tier == 'thorough':   # a few long ones (rope rebalancing while patching)
+    long_cases = []
+    if a.tier == 'thorough':   # long lists (rope rebalancing while patching): oracle on the implementation only (the Peano-nat model is O(n*m*cost))
         rng = random.Random(a.seed + 1)
-        for i in range(12):
-            L = rng.choice([600, 1000, 1500])
+        for i in range(24):
+            L = rng.choice([600, 1000, 2500, 5000])
             t = [rng.randrange(6) for _ in range(L)]; s = gen_ord.mutate(rng, t, rng.randint(1, 40), 6)
-            cases.append(gen_ord.line(f"L{i}", t, s)); dist['long'] = dist.get('long', 0) + 1
+            long_cases.append(gen_ord.line(f"L{i}", t, s)); dist['long_oracle_only'] = dist.get('long_oracle_only', 0) + 1
     casefile = os.path.join(WORK, f'cases_{PROP}_{a.tier}.txt')
     os.makedirs(WORK, exist_ok=True)
     open(casefile, 'w').write('\n'.join(cases) + '\n')
@@ -99,6 +100,10 @@ def main():
     if bb:
         impl_obs, fails = run_impl(res, bb, casefile)
         res.oracle_fail = oracle_fail_records(fails, by_id)
+        if long_cases:
+            f3 = os.path.join(WORK, f'cases_{PROP}_long.txt'); open(f3, 'w').write('\n'.join(long_cases) + '\n')
+            _, lf = run_impl(res, bb, f3)
+            res.oracle_fail += oracle_fail_records(lf, {c.split()[0]: c for c in long_cases})
         if res.oracle_fail:
             res.oracle_fail[0]['case'] = shrink(bb, res.oracle_fail[0]['case'])
     if drv and bb:
